@@ -80,6 +80,8 @@ class C11(Prop):
         "NV.C11.sim_coLoop",
         "NV.C11.sim_coDispatch",
         "NV.C11.gen_chbTail_eq",
+        "NV.C11.error_outside_heart_beat_switches_off_nobody",
+        "NV.C11.oracle_error_outside_heart_beat",
         "NV.C11.sim_hookStep",
         "NV.C11.roundRef_cg",
         "NV.C11.tick_cg_none",
@@ -158,7 +160,8 @@ class C11(Prop):
                  "destruct_object / reload_object / clone_object into Lean definitions the model uses, bridging lemmas as "
                  "obligations) + model/implementation correspondence")
     level_text = ("Lean 4 theorems about an executable model of one pass of the backend() loop (start-up call, "
-                  "remove_destructed_objects / replace_programs, call_heart_beat, further passes after an error), set_heart_beat / "
+                  "remove_destructed_objects / replace_programs, call_heart_beat incl. the call_out dispatch behind the round, further "
+                  "passes after an error), set_heart_beat / "
                   "query_heart_beat / error_handler (restrict_destruct reset, catch branch, switch-off) / destruct_object "
                   "(inventory hooks incl. errors, self-destructing and departing items, restrict_destruct) / clone_object / "
                   "reload_object / replace_program for all populations, heart_beat scripts, timer_flags and tick counts; the "
@@ -187,7 +190,7 @@ class C11(Prop):
                    "perc_hb_probes / num_hb_calls statistics, heart_beat_status()",
                    "truncation of a round by the real timer thread is an explicit scripted operation (the thread is C19)",
                    "current_interactive; user commands / I/O in the same pass of the backend loop (C09, C12)",
-                   "timer_flags bits RESET / CALLOUT run look_for_objects_to_swap / call_out in the harness but nothing is pending there (C10 covers call_out)",
+                   "reset()/clean_up() applied by look_for_objects_to_swap inside call_heart_beat (position tied, no failing ones scripted: C05); the call_out wheel timing (C10) - every call_out here is due at the next dispatch",
                    "nested inventories (items carrying items); 'errR only inside a hook' is not an oracle clause (a left-over restrict_destruct is observed directly by the harness instead)",
                    "wrap of the short countdown of an object without heart_beat function (needs 32769 ticks, not observable: such an object is never called)",
                    "errors in the master's error handler (in_error re-entry)"]
